@@ -70,6 +70,10 @@ def check(ctx, rep):
     rep.rule("R02e", "protocol tests have no global/time/random/file-system effects", floor=6)
     rep.rule("R02h", "representative request lines are claimed by the protocol whose documented shape they have: constructor and test of every "
              "listed protocol evaluated in list order, per TLS parity", floor=1)
+    rep.rule("R02i", "= R05i: the protocols are shown the whole first line - the connection handler does not bound its length (HTTP, Spartan and "
+             "Gopher+ are recognised by the *end* of the line; a cut line is claimed by plain Gopher)", floor=1)
+    from .c05 import request_length_obligations
+    request_length_obligations(ctx, rep, "R02i")
     rep.rule("R02g", "WAP auto-detection agrees with the header table headerslurp() builds (evaluated on 7 header blocks)", floor=7)
     rep.rule("R02f", "sniff: recv(1, MSG_PEEK) only; TLS wrap iff the byte is 0x16; done in the worker, result passed on", floor=4)
     rep.assume("socketserver.StreamRequestHandler keeps the accepted socket in self.request / self.connection")
